@@ -106,6 +106,14 @@ def ulp_adjacent(base=0.5):
     return g
 
 
+def clustered(lo, hi, gap=1e-12):
+    """the extreme abstract values lo / hi map to 0 and 1, everything in between into a cluster of
+    distinct scores `gap` apart around 0.5 (spacing far below 1e-9 of the score range, far above an ulp)"""
+    mid = (lo + hi) / 2.0
+    return Gamma(f"clustered({lo},{hi})",
+                 lambda v: float(v - lo) if v <= lo else 1.0 + (v - hi) if v >= hi else 0.5 + (v - mid) * gap, None)
+
+
 def int_top(K, dtype=np.uint8):
     """narrow integer scores saturating at the top of their dtype: the largest abstract value K-1 maps to
     the dtype's maximum; abstract values beyond it (thresholds above every score) are floats"""
